@@ -572,3 +572,104 @@ def replay_filter(trace_path, replay, keys=("case",)):
         raise ToolError("replay: case %r not produced any more by the driver" % (want.get("case"),))
     write_ndjson(trace_path, keep)
     return len(keep)
+
+
+# ------------------------------------------------------------------------------------------
+# unbounded (inductive) results: Apalache and TLAPS  (growth item "ind"; thorough tier only)
+# ------------------------------------------------------------------------------------------
+_RE_OBL = re.compile(r"All (\d+) obligations? proved")
+_RE_OBLF = re.compile(r"(\d+)/(\d+) obligations? failed")
+
+
+def ind_enabled():
+    """False when VERIF_NO_IND=1: the glue files skip their inductive block with a note."""
+    return os.environ.get("VERIF_NO_IND", "") not in ("1", "true", "yes")
+
+
+def apalache(module_rel, inv, init=None, next=None, cinit=None, length=1, timeout=900, extra=(), xmx="4g", tag=None):
+    """Runs `apalache-mc check` on a (typed) module: with init=IndInit, length=1 this is the inductive step
+    IndInit /\\ Next => Inv'; with init=Init, length=0 the base case.  Returns a dict with
+    result = "ok" (no error up to `length`), "counterexample" (invariant violated) or "deadlock", wall_s, out.
+    Raises ToolError on timeouts and on every other outcome (parse, type, solver errors)."""
+    name = os.path.splitext(os.path.basename(module_rel))[0]
+    key = tag or "%s-%s-%s-%s-%s-%d" % (name, init, next, inv, cinit, length)
+    stage = stage_spec(module_rel, workdir("apa", re.sub(r"[^A-Za-z0-9_.-]", "_", key)))
+    outdir = os.path.join(stage, "_out")
+    shutil.rmtree(outdir, ignore_errors=True)
+    cmd = ["apalache-mc", "check", "--length=%d" % length, "--inv=%s" % inv, "--out-dir=%s" % outdir]
+    if init:
+        cmd.append("--init=%s" % init)
+    if next:
+        cmd.append("--next=%s" % next)
+    if cinit:
+        cmd.append("--cinit=%s" % cinit)
+    cmd += list(extra) + [name + ".tla"]
+    e = dict(os.environ, JVM_ARGS="-Xmx%s" % xmx)
+    t0 = time.time()
+    try:
+        p = subprocess.run(cmd, cwd=stage, env=e, stdout=subprocess.PIPE, stderr=subprocess.STDOUT, text=True, timeout=timeout)
+    except subprocess.TimeoutExpired:
+        subprocess.run(["pkill", "-f", outdir], stdout=subprocess.DEVNULL, stderr=subprocess.DEVNULL)
+        raise ToolError("apalache timeout on %s (%s) after %ss" % (name, key, timeout))
+    out = p.stdout
+    wall = round(time.time() - t0, 2)
+    shutil.rmtree(outdir, ignore_errors=True)
+    r = {"tool": "apalache", "module": name, "init": init, "next": next, "inv": inv, "cinit": cinit, "length": length,
+         "wall_s": wall, "out": out, "cmd": " ".join(cmd[:-1] + [name + ".tla"])}
+    if "The outcome is: NoError" in out and p.returncode == 0:
+        r["result"] = "ok"
+    elif p.returncode == 12 and re.search(r"state invariant \d+ violated", out):
+        r["result"] = "counterexample"
+        m = re.search(r"State (\d+): state invariant (\d+) violated", out)
+        r["violated_at"] = {"state": int(m.group(1)), "conjunct": int(m.group(2))} if m else None
+    elif p.returncode == 12 and "deadlock" in out.lower():
+        r["result"] = "deadlock"      # never expected: the restated models carry a stutter step
+    else:
+        log(out[-3000:])
+        raise ToolError("apalache error on %s (%s), exit %d" % (name, key, p.returncode))
+    log("[apalache] %s init=%s next=%s inv=%s cinit=%s length=%d: %s, %.1fs" %
+        (name, init, next, inv, cinit, length, r["result"], wall))
+    return r
+
+
+def tlapm(module_rel, timeout=900, threads=4, cleanfp=True, tag=None):
+    """Checks every proof of a module with tlapm (all back ends the proofs name).  Returns a dict with
+    result = "ok" (all obligations proved) or "failed" (some obligation not proved; `failed`, `obligations`,
+    `failed_at` = source positions), wall_s, out.  Raises ToolError on timeouts and when tlapm did not get as
+    far as counting obligations (parse errors, crashes)."""
+    name = os.path.splitext(os.path.basename(module_rel))[0]
+    stage = stage_spec(module_rel, workdir("tlaps", tag or name))
+    cmd = ["tlapm", "--threads", str(threads)] + (["--cleanfp"] if cleanfp else []) + [name + ".tla"]
+    t0 = time.time()
+    try:
+        p = subprocess.run(cmd, cwd=stage, stdout=subprocess.PIPE, stderr=subprocess.STDOUT, text=True, timeout=timeout)
+    except subprocess.TimeoutExpired:
+        raise ToolError("tlapm timeout on %s after %ss" % (name, timeout))
+    out = p.stdout
+    wall = round(time.time() - t0, 2)
+    r = {"tool": "tlapm", "module": name, "wall_s": wall, "out": out, "cmd": " ".join(cmd)}
+    # the summary of the module itself is the last one (modules it extends are summarised before it)
+    last_ok, last_bad = None, None
+    for m in _RE_OBL.finditer(out):
+        last_ok = m
+    for m in _RE_OBLF.finditer(out):
+        last_bad = m
+    if last_bad:
+        r.update(result="failed", failed=int(last_bad.group(1)), obligations=int(last_bad.group(2)),
+                 failed_at=re.findall(r'File "\./%s\.tla", (line \d+, characters \d+-\d+)' % re.escape(name), out))
+    elif last_ok and p.returncode == 0:
+        r.update(result="ok", failed=0, obligations=int(last_ok.group(1)))
+    else:
+        log(out[-3000:])
+        raise ToolError("tlapm error on %s, exit %d" % (name, p.returncode))
+    log("[tlapm] %s: %s, %d obligations, %d failed, %.1fs" % (name, r["result"], r["obligations"], r["failed"], wall))
+    return r
+
+
+def ind_expect(r, want, what):
+    """An inductive run of an UNCHANGED model that does not give the expected answer is a tool error (exit 2),
+    never a violation: `want` is "ok" for the real model, "counterexample" / "failed" for its broken variant."""
+    if r["result"] != want:
+        log(r["out"][-3000:])
+        raise ToolError("%s: %s gave %r, expected %r" % (what, r["tool"], r["result"], want))
+    return {k: r[k] for k in r if k not in ("out",)}
